@@ -1906,3 +1906,19 @@ LIBFUNCS.update({
     "muutils.misc.shorten_numerical_to_str": lib_uf("shorten_numerical_to_str", ["int"], "str"),
 })
 METHODS[("scalar", "removeprefix")] = m_str_removeprefix
+
+
+def m_str_join(interp, st, base, base_node, args, kwargs, node):
+    """sep.join(x): concrete for concrete strings; for an opaque token list an unknown function of (sep, list)"""
+    I = _I()
+    x = args[0]
+    if isinstance(x, I.ObjMethod):
+        x = x.value
+    if I.is_obj(x):
+        return z3.Function("str.join_obj", z3.StringSort(), I.OBJ_SORT, z3.StringSort())(z3.StringVal(base) if isinstance(base, str) else base, x)
+    if isinstance(x, (list, tuple)) and all(isinstance(e, str) for e in x) and isinstance(base, str):
+        return base.join(x)
+    raise Outside("str.join over a symbolic sequence of strings", node)
+
+
+METHODS[("str", "join")] = m_str_join
